@@ -273,3 +273,15 @@ Proof.
   - eapply Forall_impl; [|exact F]. intros t [A _]. exact A.
   - eapply Forall_impl; [|exact F]. intros t [A B]. apply fits_started; auto.
 Qed.
+
+(* ... with the fuel the correspondence gives the explorer *)
+Lemma split_writes_fuel (H : str -> str -> str) big blobs ts sched st' :
+  Forall (fun t => t_pc t = PStart /\ (length (stream (t_evs t)) <= S big)%nat) ts ->
+  crun H (mkC blobs ts) sched = Some st' ->
+  Forall (fun t => exists r, t_pc t = PDone r) (c_thr st') ->
+  In st' (explore H (4 * length ts + 2) big (mkC blobs ts)).
+Proof.
+  intros F E Fd. apply (split_writes_explored_fuel H big (mkC blobs ts) sched st'); auto; simpl.
+  - eapply Forall_impl; [|exact F]. intros t [A _]. exact A.
+  - eapply Forall_impl; [|exact F]. intros t [A B]. apply fits_started; auto.
+Qed.
